@@ -4,7 +4,7 @@
 
       open(lock, O_RDONLY)                       → a descriptor on the inode the name points to, or ENOENT
       [ENOENT]  stat(lock)                       → exists / missing                     (ensureFileExists)
-      [missing] open(lock, O_WRONLY|O_CREAT|O_TRUNC) ; close     — creates the name only if it is still missing (os.WriteFile)
+      [missing] open(lock, O_RDONLY|O_CREAT) ; close             — creates the name only if it is still missing
                 open(lock, O_RDONLY)             → a descriptor, or ENOENT (the command fails)
       flock(fd, LOCK_EX|LOCK_NB)                 → held, or EWOULDBLOCK (`lock busy`)
       … the section …
@@ -44,7 +44,7 @@ inductive LStep : LSys → LSys → Prop where
   | open1Miss (s p) : s.procs[p]? = some .start → s.name = none → LStep s (setPh s p .missing)
   | statHit (s p i) : s.procs[p]? = some .missing → s.name = some i → LStep s (setPh s p .ensured)
   | statMiss (s p) : s.procs[p]? = some .missing → s.name = none → LStep s (setPh s p .creating)
-  /-- `O_CREAT|O_TRUNC` without `O_EXCL`: an existing file keeps its inode (and is emptied — it is empty anyway) -/
+  /-- `O_CREAT` without `O_EXCL`: an existing file keeps its inode -/
   | create (s p) : s.procs[p]? = some .creating →
       LStep s (setPh (match s.name with
                       | some _ => s
@@ -85,7 +85,7 @@ inductive LStepRename : LSys → LSys → Prop where
 inductive LCall where
   | openRO (found : Bool)      -- open(lock, O_RDONLY): a descriptor, or ENOENT
   | stat (found : Bool)        -- stat(lock)
-  | creat                      -- open(lock, O_WRONLY|O_CREAT|O_TRUNC) (and its close): creates the name only if missing
+  | creat                      -- open(lock, … O_CREAT …) (and its close): creates the name only if missing
   | flockEx (ok : Bool)        -- flock(fd of the lock file, LOCK_EX|LOCK_NB)
   | flockUn
   | bad                        -- anything else: a rename onto the name, unlink, truncate, a write, a flock on another file …
